@@ -38,7 +38,7 @@ Sym(H) == \A i, j \in 1..Dm : FAbs(H[i][j] - H[j][i]) <= 2
 \* minors too close to the resolution are not decided
 Resolved(H) == Minor1(H) > 64 /\ (Dm < 2 \/ FAbs(Minor2(H)) > 64) /\ (Dm < 3 \/ FAbs(Minor3(H)) > 64)
 \* the property's proviso (the localisation reaches at least one other grid point): C.reach[g] is the share (fixed
-\* point) that the OTHER grid points have in the localised weights used for grid point g's covariance, observed at
+\* point) of the localised weights used for grid point g's covariance that lies outside their largest entry, observed at
 \* the module function _local_population; <<>> when it could not be observed.  A share of at least 2^-10 for every
 \* grid point counts as reached; otherwise a non-finite bandwidth (0/0 covariance normalisation) is not decided.
 Reached == C.reach # <<>> /\ \A g \in 1..Len(C.reach) : C.reach[g] >= 16
@@ -57,6 +57,7 @@ TieFree == /\ \A d \in 1..ND : Cardinality(Nearest(d)) = 1
            \* a grid weight exactly at the fpoints threshold is decided by the rounding of the weight sums
            /\ (C.fp = <<>> \/ C.gw = <<>> \/ \A g \in 1..NG : C.gw[g] * C.fp[2] # C.fp[1] * WS)
 Verdict == IF C.raised THEN <<"rejected", "valid-input-raised">>
+           ELSE IF C.finite /\ ~C.ldfinite THEN <<"rejected", "log-density-not-finite">>
            ELSE LET c == First(<<AssignClause, BwClause, SumClause>>) IN
                 IF c = "inconclusive" THEN <<"inconclusive", "localisation-proviso">>
                 ELSE IF c # "ok" THEN <<"rejected", c>>
